@@ -414,6 +414,10 @@ V("f-cnf-clause-leaks", "fire", ["C15"], TS, "        cnf = []\n        for expr
   "        cnf = []\n        clause = []\n        for expr in goal:\n            literals = expr.children() if z3.is_or(expr) else [expr]\n", note="the literals of one goal formula leak into the clauses of the next")
 V("s-cnf-for-else", "silent", ["C15", "C03", "C05"], TS, "                if value is None:\n                    clause.append(self.expr_to_signed_id(literal))\n                # a false literal contributes nothing\n            if satisfied:\n                continue\n",
   "                if value is None:\n                    clause.append(self.expr_to_signed_id(literal))\n                # a false literal contributes nothing\n            else:\n                satisfied = False\n            if satisfied:\n                continue\n", note="for-else restating the flag")
+V("f-save-restore-narrow-handler", "fire", ["C20"], PO, "        finally:\n            # Restore all non-picklable objects\n            for attr, value in non_picklable_backups.items():\n                setattr(self, attr, value)\n",
+  "        except (OSError, pickle.PicklingError):\n            for attr, value in non_picklable_backups.items():\n                setattr(self, attr, value)\n            raise\n        for attr, value in non_picklable_backups.items():\n            setattr(self, attr, value)\n", note="restored only for two kinds of failure; a member whose __reduce__ raises anything else leaves the object stripped")
+V("s-save-restore-except-reraise", "silent", ["C20"], PO, "        finally:\n            # Restore all non-picklable objects\n            for attr, value in non_picklable_backups.items():\n                setattr(self, attr, value)\n",
+  "        except BaseException:\n            for attr, value in non_picklable_backups.items():\n                setattr(self, attr, value)\n            raise\n        for attr, value in non_picklable_backups.items():\n            setattr(self, attr, value)\n", note="restoration on every exit without the word finally")
 
 
 def main():
